@@ -1095,14 +1095,40 @@ end Inv3x3
 
 section SignedAngle
 
+/-- the guard of `signed_angle` against `arctan2(0, 0)` (evaluated at `(0, 1)` instead, so that the gradient is finite)
+does not change its value: both are `0`.  Stated for whatever form the traced source has: with the guard the generated
+definition is `atan2 y (if x = 0 ∧ y = 0 then 1 else x)`. -/
+theorem atan2_guard (y x : ℝ) :
+    (HasTrig.atan2 y (if (eqR x 0 && eqR y 0) = true then 1 else x) : ℝ) = HasTrig.atan2 y x := by
+  by_cases h : (eqR x 0 && eqR y 0) = true
+  · rw [if_pos h]
+    simp only [eqR, Bool.and_eq_true, Bool.not_eq_true', decide_eq_false_iff_not, not_lt] at h
+    obtain ⟨⟨hx1, hx2⟩, hy1, hy2⟩ := h
+    have hx : x = 0 := le_antisymm hx2 hx1
+    have hy : y = 0 := le_antisymm hy2 hy1
+    subst hx; subst hy
+    show Complex.arg ⟨1, 0⟩ = Complex.arg ⟨0, 0⟩
+    have h1 : (⟨1, 0⟩ : ℂ) = 1 := rfl
+    have h0 : (⟨0, 0⟩ : ℂ) = 0 := rfl
+    rw [h1, h0, Complex.arg_one, Complex.arg_zero]
+  · rw [if_neg h]
+
+/-- `signed_angle axis p c = atan2((p × c)·axis, p·c)` for every input (the zero-vector guard included) -/
+theorem signedAngle_eq_atan2 (ax p c : V3 ℝ) :
+    Gen.signedAngle ax p c = HasTrig.atan2 (V3.dot (V3.cross p c) ax) (V3.dot p c) := by
+  simp only [Gen.signedAngle, V3.dot, V3.cross]
+  first
+    | rfl
+    | exact atan2_guard _ _
+
 /-- **`signed_angle` recovers the rotation angle**: for a unit axis `a`, a non-zero reference `p ⟂ a` and
 `θ ∈ (−π, π]`, the signed angle about `a` from `p` to `p` rotated by `quat_rot_axis a θ` is `θ` -/
 theorem signedAngle_rotate (a p : V3 ℝ) (θ : ℝ) (ha : V3.dot a a = 1) (hap : V3.dot a p = 0)
     (hp : 0 < V3.dot p p) (hθ : θ ∈ Set.Ioc (-Real.pi) Real.pi) :
     Gen.signedAngle a p (Gen.rotate p (Gen.quatRotAxis a θ)) = θ := by
-  rw [rotate_quatRotAxis a p θ ha]
+  rw [signedAngle_eq_atan2, rotate_quatRotAxis a p θ ha]
   simp only [V3.dot] at ha hap
-  simp only [Gen.signedAngle, V3.smul, V3.add_def, V3.cross]
+  simp only [V3.smul, V3.add_def, V3.cross, V3.dot]
   convert atan2_scaled (V3.dot p p) θ hp hθ using 2
   · simp only [V3.dot]
     linear_combination (Real.sin θ * (p.x * p.x + p.y * p.y + p.z * p.z)) * ha
